@@ -88,6 +88,11 @@ def cases(tier, seed):
             for tname, targs in TRANSFORMS[:2]:
                 out.append({"kind": "group", "tree": t, "transform": tname, "targs": targs, "cache": True, "out": "stdout",
                             "fmt": "default", "xdg": xdg})
+        # a relative -o together with --base-dir: input paths are relative to the base directory, the report file is
+        # relative to the working directory (which lies outside the tree)
+        for tname, targs in TRANSFORMS[:2]:
+            out.append({"kind": "group", "tree": t, "transform": tname, "targs": targs, "cache": False, "out": "relative_with_basedir",
+                        "fmt": "default"})
         for op in D.OPS:
             for outmode in ("stdout", "file"):
                 for opts in DRY_OPTS:
@@ -132,7 +137,13 @@ def evaluate(case):
                 feat["xdg_cache_home"] = "empty" if case["xdg"] == "" else "relative"
             if xenv:
                 args = args[:-1] + ["."]      # started inside the scanned directory
-            res = S.run_with_shim(sc, args, [sc.tree], "mr", env_extra=xenv, cwd=os.path.join(sc.tree, "r") if xenv else None)
+            run_cwd = os.path.join(sc.tree, "r") if xenv else None
+            if case["out"] == "relative_with_basedir":
+                run_cwd = os.path.join(sc.root, "elsewhere")
+                os.makedirs(run_cwd, exist_ok=True)
+                args = args[:-1] + ["--base-dir", os.path.join(sc.tree, "r"), "-o", "rel-report.txt", "."]
+                feat["relative_output_with_base_dir"] = True
+            res = S.run_with_shim(sc, args, [sc.tree], "mr", env_extra=xenv, cwd=run_cwd)
         else:
             target = os.path.join(sc.root, "moved")
             args = list(D.OPS[case["op"]]) + case["opts"] + ["--dry-run"] + (["-o", outfile] if case["out"] != "stdout" else []) + \
